@@ -33,7 +33,7 @@ BASE_OPTS = {'norm': True, 'raw': False}
 
 def params(tier):
     if tier == 'quick':
-        return {'examples': 2500, 'wall': 75, 'case_timeout': 20, 'max_steps': 8}
+        return {'examples': 2200, 'wall': 130, 'case_timeout': 20, 'max_steps': 8}
 
     return {'examples': 1500, 'wall': 1500, 'case_timeout': 30, 'max_steps': 25}
 
@@ -52,8 +52,8 @@ def enumerate_cases(tier, shard, nshards, seed):
 
     from .. import gen
 
-    yield from em.single_edit_grid(gen.saturated_programs() + gen.SYN_PROGRAMS, tier, shard, nshards, seed, thin=3 if tier == 'quick' else 1)
-    yield from em.single_edit_grid(gen.TRIVIA_PROGRAMS + gen.FSTRING_PROGRAMS, tier, shard, nshards, seed, n_expr=4, line_comments=True, cut=True)
+    yield from em.single_edit_grid(gen.saturated_programs() + gen.SYN_PROGRAMS, tier, shard, nshards, seed, thin=5 if tier == 'quick' else 1)
+    yield from em.single_edit_grid(gen.TRIVIA_PROGRAMS + gen.FSTRING_PROGRAMS, tier, shard, nshards, seed, n_expr=4, line_comments=True, cut=True, thin=2 if tier == 'quick' else 1)
     yield from em.slice_edit_grid(gen.TRIVIA_PROGRAMS, tier, shard, nshards, seed, optsets=({}, {'trivia': 'all'}, {'pep8space': False}), thin=2 if tier == 'quick' else 1)
 
 
